@@ -260,6 +260,8 @@ def lean_request(case, obs):
         return [_request(_at_point(case, pt), vals) for pt, vals in zip(_spinn_points(case), obs["grid"])]
     if case.get("spinn"):
         case = _at_point(case, _spinn_points(case)[0])
+    if case.get("hetero"):
+        case = _hetero_resolved(case)
     req = _request(case, obs.get("value"))
     if "error" in obs:
         req["rejected"] = True  # a rejection is an observation: Holds decides whether the layout was valid
@@ -305,12 +307,26 @@ def run_impl(case):
         if kind in ("burgers", "fisher", "ou", "fpe"):
             u = pinns[case["nets"][0][0]]
             params = Params(nn_params=u.init_params(), eq_params=eqp)
+            het = None
+            if case.get("hetero"):
+                hk, cx, ct = case["hetero"]["key"], float(Fraction(case["hetero"]["cx"])), float(Fraction(case["hetero"]["ct"]))
+                het = {k: None for k in eqp}
+                het[hk] = lambda t_, x_, u_, p_: p_.eq_params[hk] * (1.0 + cx * x_[0] + ct * t_[0])
             if kind == "fpe":
                 loss = _user_fpe(case, Tmax)
             else:
-                loss = {"burgers": BurgerEquation, "fisher": FisherKPP, "ou": OU_FPENonStatioLoss2D}[kind](Tmax=Tmax)
+                loss = {"burgers": BurgerEquation, "fisher": FisherKPP, "ou": OU_FPENonStatioLoss2D}[kind](
+                    Tmax=Tmax, **({"eq_params_heterogeneity": het} if het else {}))
             f = lambda t, x, p: loss.evaluate(t, x, u, p)
             res = (jax.jit(f) if case.get("jit") else f)(t, x, params)
+            if het:
+                # second evaluation with the SAME Params object, and the parameters it holds afterwards
+                res2 = np.asarray(f(t, x, params))
+                if not (np.array_equal(np.asarray(res), res2)
+                        and float(params.eq_params[hk]) == float(Fraction(dict(case["eq_params"])[hk]))):
+                    return {"value": [core.qstr(v) for v in res2.reshape(-1)], "shape": list(res2.shape),
+                            "second_call_differs": True,
+                            "first": [core.qstr(v) for v in np.asarray(res).reshape(-1)]}
         else:
             params = ParamsDict(nn_params={k: v.init_params() for k, v in pinns.items()}, eq_params=eqp)
             if kind == "glv":
@@ -416,6 +432,9 @@ def judge(case, obs, a):
                 worst = {**v, "grid_index": idx}
         return worst
     merr = a.get("model_error")
+    if obs.get("second_call_differs") and a.get("holds") is False:
+        return {"status": "violation", "clause": f"{case['kind']}:residual-of-a-second-evaluation-differs-from-the-documented-expression",
+                "first": obs.get("first"), "second": obs.get("value"), "documented": a.get("doc")}
     if "error" in obs:
         if not a["holds"]:  # Holds.C02: the documented expression is defined here, the layout is valid
             return {"status": "violation", "clause": a["clause"], "error": obs["error"], "message": obs.get("message")}
@@ -677,6 +696,37 @@ def _gen_ns(rng, layout=None):
 
 GEN = {"burgers": _gen_burgers, "fisher": _gen_fisher, "ou": _gen_ou, "fpe": _gen_fpe, "glv": _gen_glv,
        "mass": _gen_mass, "ns": _gen_ns}
+
+def _gen_hetero(rng, kind=None):
+    """one scalar parameter of a non-stationary built-in declared heterogeneous: its function returns
+    (its own base value read from params.eq_params) * (1 + c * x_0 + c' * t), so the documented expression is the
+    one with that parameter's point-wise value; the same Params object is evaluated twice, eagerly (an
+    evaluation that writes the point-wise value back into the caller's parameters shows at the second call)"""
+    kind = kind or rng.choice(["burgers", "fisher"])
+    c = GEN[kind](rng)
+    c["flavour"] = "heterogeneous"
+    c.pop("free", None)
+    key = {"burgers": "nu", "fisher": rng.choice(["D", "r", "g"])}[kind]
+    c["hetero"] = {"key": key, "cx": _q(rng.choice([1, 2, -1, Fraction(1, 2)])), "ct": _q(rng.choice([0, 1, -2]))}
+    c["eq_params"] = [kv for kv in c["eq_params"] if kv[0] in c["sem"]]
+    return c
+
+
+def _hetero_factor(case):
+    pt = _point(case)
+    h = case["hetero"]
+    return 1 + Fraction(h["cx"]) * pt[1] + Fraction(h["ct"]) * pt[0]
+
+
+def _hetero_resolved(case, ncalls=1):
+    """the case the documented expression is evaluated on: the heterogeneous parameter at its point-wise value"""
+    c = copy.deepcopy(case)
+    k = c["hetero"]["key"]
+    v = Fraction(c["sem"][k]) * _hetero_factor(case) ** ncalls
+    c["sem"][k] = _q(v)
+    c["eq_params"] = [[kk, (_q(v) if kk == k else vv)] for kk, vv in c["eq_params"]]
+    return c
+
 
 # ---- separable networks (SPINN): the same built-ins evaluated on the tensor grid of a batch ------------------
 SPINN_KINDS = ["burgers", "fisher", "ou", "mass", "ns"]
@@ -944,6 +994,10 @@ def gen_cases(rng, tier):
     reps = 2 if tier == "quick" else 12
     for _ in range(reps):
         cases += _solutions(rng)
+    # heterogeneous parameters (the decorator around `equation`), evaluated twice on the same Params
+    for _ in range(2 if tier == "quick" else 20):
+        for kind in ("burgers", "fisher"):
+            cases.append(_gen_hetero(rng, kind))
     # separable networks: every built-in with a SPINN branch, one point per axis (batch < dimension) and more
     for _ in range(1 if tier == "quick" else 8):
         for kind in SPINN_KINDS:
